@@ -7,7 +7,7 @@ import Refine.Lemmas.CellStore
 
   Models: `Refine/Model/NodeIds.lean`, `Refine/Model/CellStore.lean` (tied to the C by the `nodecell`
   streams).  Invariants and helper lemmas: `Refine/Lemmas/NodeIds.lean`, `Refine/Lemmas/CellStore.lean`.
-  Every theorem below is unbounded (all states, all sequences); none uses `sorry` or extra axioms.
+  Every theorem below is unbounded (all states, all sequences) and fully proved (axioms ⊆ propext, Classical.choice, Quot.sound).
 -/
 namespace Refine.Props.C14NodeCell
 open Refine.Model.NodeIds
